@@ -236,6 +236,29 @@ def c11_grid(tier):
     return out
 
 
+def failed_then_retry():
+    """The first batch for a key fails as a whole (the batch function raises), the key is retried successfully while
+    the failed request's retention window is still open, and is requested again after that window has closed but
+    within the window of the successful request: served from what is retained, no new work."""
+    out = []
+    bt = BT
+    for R, d1, d2, form in itertools.product([6.0, 10.0], [0.5, 1.0, 2.0], [0.5, 1.0, 2.5], ['class', 'deco_options', 'deco_direct']):
+        opts = {'max_batch_size': 3, 'max_concurrent_batches': 2, 'batch_timeout': bt, 'retention_timeout': R}
+        t_fail = bt                      # the batch of the first call starts (and raises) at bt
+        t_retry = t_fail + d1            # retried while the failure is still retained?  no: failures are not served
+        t_ok = t_retry + bt              # ... its batch runs at t_retry + bt
+        calls = [{'i': 1, 'at': 0.0, 'arg': 1}, {'i': 2, 'at': t_retry, 'arg': 1},
+                 {'i': 3, 'at': t_fail + R + d2, 'arg': 1}, {'i': 4, 'at': t_ok + R - 0.5, 'arg': 1}]
+        calls = [c for c in calls if c['at'] >= 0]
+        calls.sort(key=lambda c: c['at'])
+        for j, c in enumerate(calls):
+            c['i'] = j + 1
+        sc = {'form': form, 'opts': opts, 'calls': calls, 'batch_dur': 0.0, 'raise_at': [1, 0], 'excfam': 'plain'}
+        sc['end'] = end_time(calls, opts, sc)
+        out.append(sc)
+    return out
+
+
 def known_match(k, clause, idx, sc, r):
     return False
 
@@ -280,6 +303,7 @@ def run(ctx):
         go(trickle_burst(rng, 400 if q else 6000), 'trickle_burst')
     else:
         go(c11_grid(ctx.tier), 'retention_grid')
+        go(failed_then_retry(), 'failed_then_retry')
         go(completion_instant(rng, 500 if q else 8000), 'completion_instant')
         go(gen(rng, 1500 if q else 30000, 7 if q else 10, behaviours=False, keys=3), 'programs')
     # implementation conformance: a sample of the recorded executions against the timed model itself
